@@ -142,6 +142,17 @@ CHECKS = {
         ),
         design_ref="DESIGN.md §4 C13",
     ),
+    "C20": dict(
+        technique="Lean 4 proof (layout tables regenerated from the construct objects of /repo and proved equal to the model's; tiling, locality and read-back theorems) + ls-output oracle on images whose every header field is random + model correspondence",
+        text=(
+            "Machine-checked: C20_header_layout / _keygroup_layout / _zone_layout and C20_kind_tables, C20_*_shown (translator tie: name, offset, size of every sub-construct of ProgramHeaderConstruct, KeygroupConstruct's fixed head and VelocityZoneConstruct as read off /repo on this run, and for every one-byte field the text printed for each of the 256 byte values, equal the model's tables), "
+            "C20_*_tiles (fields tile 72 / 34 / 24 bytes without gap or overlap; kgSize 4 = 150), C20_field_local (what is shown for a field depends on that field's bytes only), C20_read_back / C20_shown_determines_byte (for numeric, note, tuning, channel and output fields the shown text reads back to the stored byte: a wrong value cannot print the same), "
+            "C20_enum_names_distinct, C20_roland_point(_inj), C20_roland_freq, C20_roland_modes. "
+            "Oracle: AKAI samples, AKAI programs (1-5 keygroups at standard / gapped / shuffled / sequential addresses, 0-4 zones in leading or scattered slots), Roland samples and CDDA tracks with every field random; `ls <item>` parsed back into key/value pairs and compared with the stored values, under the 300-line cap. "
+            "Tie: the same listings line by line against the Lean model of the whole parser (AKAI incl. program / keygroup chain / zone filtering, Roland). Not proved: the dynamic tail of the keygroup (zones, per-slot arrays) is modelled by formula and covered by correspondence only; CDDA tracks by oracle only."
+        ),
+        design_ref="DESIGN.md §4 C20",
+    ),
     "C14": dict(
         technique="Lean 4 proof (replacing one 24-byte table entry leaves every other entry's parse unchanged) + byte-sweep damage correspondence",
         text=(
